@@ -153,7 +153,7 @@ static bool captured_handshake(const wcap::Frame* fr, RSNHandshake& out) {
 
 void prop(Src& s, Ctx& ctx) {
     unsigned op = s.u8() % 7;
-    unsigned n = 60 + 4 * (unsigned)s.u8();     // 60 .. 1080 iterations
+    unsigned n = 40 + (unsigned)s.u8();         // 40 .. 295 iterations
     unsigned v = s.u8();
     uint64_t acc = op * 1000003ULL + n;
     switch (op) {
